@@ -20,7 +20,7 @@ ID = 'C15'
 LEVEL = 'exploration'
 TECHNIQUE = 'runtime monitor: open/close history checker joined with the recorder\'s per-thread invocation stack (frame identity)'
 RULE = ('generated programs (recursion, mutual recursion, nested calls, caught / re-raised / propagating exceptions, '
-        'finally, generators incl. send/throw/close and yield from, 1-3 worker threads, 2-3 threads driven in lock step through a seeded turn order so that invocations of one function overlap across threads), 1-3 span processors, a 500+ deep recursion with two spans pending per invocation, x 1-5 deferred tracepoints: '
+        'finally, generators incl. send/throw/close and yield from, 1-3 worker threads, 2-3 threads driven in lock step through a seeded turn order so that invocations of one function overlap across threads), 1-3 span processors (one of which may decline spans), a 500+ deep recursion with two spans pending per invocation, x 1-5 deferred tracepoints: '
         'line spans, method spans (by name), method_capture / line_capture snapshots (direct actions), co-located '
         'line+method tracepoints on one function incl. its last line, fire_count 1 or unlimited; non-trivial = at '
         'least one opening observed; distinct by (shapes, tracepoints)')
